@@ -413,3 +413,46 @@ def sums_binner_numitems(nbins, adds, index):
             b.add_item_to_bin(bins, v, i)
         return num(b.numitems(bins, index))
     return guarded(run)
+
+
+def inex_tree_subsets(names, values, lo, hi):
+    """InExclusionBinTree(items=names, valueof, upper_bound=hi, lower_bound=lo).generate_tree() -> list of lists of names."""
+    from prtpy.inclusion_exclusion_tree import InExclusionBinTree
+    table = dict(zip(names, values))
+    given = list(names)
+
+    def run():
+        t = InExclusionBinTree(items=given, valueof=table.__getitem__, upper_bound=hi, lower_bound=lo)
+        return [[norm_name(x) for x in subset] for subset in t.generate_tree()]
+    out = guarded(run)
+    return out, given == list(names)
+
+
+def all_combinations(manager, bins1, bins2, table=None):
+    """Binner.all_combinations on two bins-arrays built from plain data.
+    manager 'sums': bins = list of sums;  'contents': bins = list of lists of names, values from `table`.
+    Returns the outcome with a list of yielded arrays, each as (sums, lists-or-None)."""
+    if manager == "sums":
+        b = prtpy.BinnerKeepingSums()
+        a1, a2 = np.array(bins1, dtype=float), np.array(bins2, dtype=float)
+
+        def run():
+            return [([num(s) for s in y], None) for y in b.all_combinations(a1, a2)]
+        return guarded(run)
+    b = prtpy.BinnerKeepingContents(table.__getitem__)
+
+    def build(lists):
+        arr = b.new_bins(len(lists))
+        for i, l in enumerate(lists):
+            for x in l:
+                b.add_item_to_bin(arr, x, i)
+        return arr
+    a1, a2 = build(bins1), build(bins2)
+
+    def run():
+        res = []
+        for y in b.all_combinations(a1, a2):
+            sums, lists = y
+            res.append(([num(s) for s in sums], [[norm_name(x) for x in l] for l in lists]))
+        return res
+    return guarded(run)
